@@ -100,6 +100,8 @@ pub fn header_pairs() -> Vec<(Item, Item)> {
         arr(vec![arr(vec![u(1)])]),
         arr(vec![u(1), u(8)]),
         arr(vec![u(5), u(6)]),
+        arr(vec![t("")]),
+        arr(vec![u(1), t(""), t("a")]),
         arr(vec![u(6), u(4), u(5)]),
         arr(vec![u(1), u(2), u(3), u(4), u(5), u(6), u(7), u(9), u(10), u(32), u(33), u(34), u(35), u(256), u(257), t("x")]),
     ] {
@@ -290,6 +292,8 @@ pub fn key_pairs() -> Vec<(Item, Item)> {
         u(1),
         arr(vec![NULL]),
         arr(vec![t("x"), t("y"), u(3)]),
+        arr(vec![t("")]),
+        arr(vec![u(1), t("")]),
         arr(vec![u(1), u(2), u(1)]),
         arr((1..=10u64).map(u).chain(std::iter::once(t("audit"))).collect()),
         arr((0..12).map(|k| t(&format!("op{}", k))).collect()),
